@@ -104,6 +104,12 @@ func c02CountRepaired(p *core.Program, r *core.Report) {
 			return ok && resVars[info.ObjectOf(id)]
 		}
 		var bad []string
+		type staleCand struct {
+			pos token.Pos
+			txt string
+		}
+		staleReads := map[token.Pos]bool{}
+		var staleCands []staleCand
 		h := flow.Hooks{Info: info}
 		h.Atom = func(n ast.Node, s flow.State) []flow.State {
 			if as, ok := n.(*ast.AssignStmt); ok {
@@ -201,6 +207,65 @@ func c02CountRepaired(p *core.Program, r *core.Report) {
 			}
 			return s, true
 		}
+		// containers loaded from a collection (X.Containers.Get(..)): their counts are what the
+		// unrepaired unions leave stale
+		loaded := map[types.Object]bool{}
+		ast.Inspect(u.body, func(n ast.Node) bool {
+			if as, ok := n.(*ast.AssignStmt); ok && len(as.Rhs) == 1 && len(as.Lhs) >= 1 {
+				if c, ok := ast.Unparen(as.Rhs[0]).(*ast.CallExpr); ok {
+					if g := core.CalleeOf(info, c); g != nil && g.Name() == "Get" {
+						if sig, ok := g.Type().(*types.Signature); ok && sig.Recv() != nil && core.NamedOf(sig.Recv().Type()) != nil && core.NamedOf(sig.Recv().Type()).Obj().Name() == "Containers" {
+							if id, ok := ast.Unparen(as.Lhs[0]).(*ast.Ident); ok {
+								loaded[info.ObjectOf(id)] = true
+							}
+						}
+					}
+				}
+			}
+			return true
+		})
+		prevRefine := h.Refine
+		// a stale count is a lower bound: it can show that a container is full, never that it is empty
+		h.Refine = func(c ast.Expr, taken bool, s flow.State) (flow.State, bool) {
+			if be, ok := ast.Unparen(c).(*ast.BinaryExpr); ok && len(loaded) > 0 {
+				for _, pr := range [][2]ast.Expr{{be.X, be.Y}, {be.Y, be.X}} {
+					call, ok := ast.Unparen(pr[0]).(*ast.CallExpr)
+					if !ok || !isMeth(call, "Container", "N") {
+						continue
+					}
+					sel, _ := ast.Unparen(call.Fun).(*ast.SelectorExpr)
+					id, ok := ast.Unparen(sel.X).(*ast.Ident)
+					if !ok || !loaded[info.ObjectOf(id)] {
+						continue
+					}
+					k, isConst := c04ConstInt(info, pr[1])
+					op := be.Op
+					if pr[0] == be.Y {
+						op = map[token.Token]token.Token{token.LSS: token.GTR, token.GTR: token.LSS, token.LEQ: token.GEQ, token.GEQ: token.LEQ, token.EQL: token.EQL, token.NEQ: token.NEQ}[op]
+					}
+					// outcomes that assert an upper bound on the count: N == k (k small), N < k, N <= k taken; N != k, N > k, N >= k not taken
+					upper := false
+					switch op {
+					case token.EQL:
+						upper = taken && isConst && k < 65536
+					case token.NEQ:
+						upper = !taken && isConst && k < 65536
+					case token.LSS, token.LEQ:
+						upper = taken
+					case token.GTR, token.GEQ:
+						upper = !taken
+					}
+					if upper && !staleReads[be.Pos()] {
+						staleReads[be.Pos()] = true
+						staleCands = append(staleCands, staleCand{be.Pos(), types.ExprString(be)})
+					}
+				}
+			}
+			if prevRefine != nil {
+				return prevRefine(c, taken, s)
+			}
+			return s, true
+		}
 		h.Return = func(ret *ast.ReturnStmt, s flow.State) {
 			if s&bStale != 0 {
 				pos := p.Pos(u.body.End())
@@ -211,6 +276,22 @@ func c02CountRepaired(p *core.Program, r *core.Report) {
 			}
 		}
 		it := flow.Run(h, u.body, 0)
+		// the count of a container loaded from the collection can be stale only if the function defers the
+		// recount to the end (Containers.Repair after the loops) instead of repairing each result at once
+		defers := false
+		ast.Inspect(u.body, func(n ast.Node) bool {
+			if c, ok := n.(*ast.CallExpr); ok {
+				if fn := core.CalleeOf(info, c); fn != nil && fn.Name() == "Repair" && !isMeth(c, "Container", "Repair") {
+					defers = true
+				}
+			}
+			return true
+		})
+		if defers {
+			for _, sc := range staleCands {
+				bad = append(bad, p.Pos(sc.pos)+": `"+sc.txt+"` takes an unrepaired count for an upper bound")
+			}
+		}
 		switch {
 		case it.Unsupported != "":
 			r.Undecide("R5", construct, p.Pos(u.pos), it.Unsupported)
